@@ -88,7 +88,7 @@ def run_case(case) -> dict:
         return {f"C03:sign-raises:{tag}:{exc_key(e)}": f"signing raised {type(e).__name__}: {e}"}
     # --- verify with the public form
     try:
-        obj = jp.jose_verify(token, plan, keymode, case.get("form_verify", "dict"), private=False)
+        obj = jp.jose_verify(token, plan, keymode, case.get("form_verify", "dict"), private=False, via_rfc7797=len(plan["payload_hex"]) % 4 == 2)
     except Exception as e:
         return {f"C03:verify-raises:{tag}:{exc_key(e)}": f"token produced by joserfc does not verify: {type(e).__name__}: {e}"}
     if obj.payload != payload:
